@@ -184,6 +184,23 @@ fn variant() -> &'static str {
     }
 }
 
+/// Watchdog: an operation that does not come back (the wrapper's lock taken a second time by the panic
+/// machinery after an assertion fired inside the allocator, an endless walk over corrupted lists) is turned
+/// into an abort, which the shard's crash attribution reports for the case being executed.
+extern "C" fn on_alarm(_sig: libc::c_int) {
+    const MSG: &[u8] = b"h-galloc watchdog: the operation did not return within 10 s (deadlock or endless loop in the allocator)\n";
+    unsafe {
+        libc::write(2, MSG.as_ptr() as *const _, MSG.len());
+        libc::abort();
+    }
+}
+fn arm_watchdog() {
+    unsafe {
+        libc::signal(libc::SIGALRM, on_alarm as usize);
+        libc::alarm(10);
+    }
+}
+
 /// Run one history (every block still live at the end is deallocated, under the oracle too).
 fn run_history(w: &mut World, h: &[Op], r: &mut Report, verbose: bool) {
     // everything the measured operations need is built before the first of them
@@ -207,6 +224,7 @@ fn run_history(w: &mut World, h: &[Op], r: &mut Report, verbose: bool) {
     let hist: Vec<String> = h.iter().map(|o| o.show()).collect();
     let cases: Vec<String> = ops.iter().enumerate().map(|(i, o)| json!({"phase":"galloc","history": hist, "op": o.method(), "at": i}).to_string()).collect();
     let mut fails: Vec<Fail> = Vec::with_capacity(4);
+    arm_watchdog();
     for (i, op) in ops.iter().enumerate() {
         set_case(&cases[i]);
         let res = w.step(*op, &mut fails);
@@ -345,7 +363,7 @@ fn families(th: bool) -> Vec<(Alpha, usize, String)> {
         let a2 = [8usize, 64, 4096];
         v.push((alpha(&s2, &a2), 4, format!("n=4: sizes {s2:?} x alignments {a2:?}")));
     } else {
-        let s = [1usize, 24, 1000, 70_000];
+        let s = [1usize, 24, 1000, 20_000];
         v.push((alpha(&s, &ALIGNS), 3, format!("n=3: sizes {s:?} x alignments {ALIGNS:?}")));
     }
     v
